@@ -372,7 +372,9 @@ func newJoin(c Cfg, w *vrt.World) *explore.Instance {
 				m.rel = vrt.NameChan[struct{}](released, "released")
 			}
 			o := join1.Opts[int]{Input: in, JoinSize: uint(c.J), Released: released, Timeout: time.Duration(c.Timeout * unit), TimeoutInaccuracy: c.Inacc}
-			if c.Stop == "cancel" || c.Stop == "both" {
+			if c.UserCtx {
+				o.Ctx, cancel = newUserCtx()
+			} else if c.Stop == "cancel" || c.Stop == "both" {
 				o.Ctx, cancel = vcontext.WithCancel(vcontext.Background())
 			}
 			d, err := join1.New(o)
